@@ -664,8 +664,9 @@ static void drive_errpos(vf_rng *r)
 		 * inside a value comes back at the next element because the reader keeps reporting it */
 		must_fail = 1;
 	} else {
-		/* prefix: at top level every negative code ends the input (counted only) */
-		must_fail = sp->depth > 0 || sp->cls == ErrName || sp->cls == ErrHeader || (sp->cls == ErrValue && oend);
+		/* prefix: the element parser tells -1 from -2 as the others do (since the repair of the top level case);
+		 * an error swallowed inside a line-terminated value or trailing comment resurfaces at the next element */
+		must_fail = 1;
 	}
 	if (!cnt_end[sp->cls][fi][0]) {
 		snprintf(cnt_end[sp->cls][fi], sizeof(cnt_end[0][0]), "getc-error-as-end:%s:%s", errclass[sp->cls], famname[fi]);
